@@ -53,6 +53,10 @@ fn run_op(chain: &Chain, h: &Hist, op: &Value) -> Result<(), String> {
 			let sh: Tip = chain.header_head().map_err(|e| format!("{:?}", e))?;
 			chain.sync_block_headers(&hs, sh, OPTS).map(|_| ()).map_err(|e| format!("{:?}", e))
 		}
+		"header" => {
+			let hd = find(h, op["block"].as_str().unwrap()).block.header.clone();
+			chain.process_block_header(&hd, OPTS).map_err(|e| format!("{:?}", e))
+		}
 		"compact" => chain.compact().map_err(|e| format!("{:?}", e)),
 		"compact_then_block" => {
 			chain.compact().map_err(|e| format!("{:?}", e))?;
@@ -110,6 +114,15 @@ fn prep(run: &Run) -> ! {
 		let s = x.as_str().unwrap();
 		if s == "compact" {
 			chain.compact().expect("pre compact");
+			continue;
+		}
+		if let Some(hx) = s.strip_prefix("header:") {
+			// header-first announcement: the header chain runs ahead of the body chain
+			let hd = find(&h, hx).block.header.clone();
+			if let Err(e) = chain.process_block_header(&hd, OPTS) {
+				println!("@@PREP {}", json!({"error": format!("pre header {}: {:?}", hx, e)}));
+				std::process::exit(3);
+			}
 			continue;
 		}
 		let b = find(&h, s).block.clone();
@@ -304,7 +317,10 @@ fn verify_crash(run: &Run, scen: &Value, scen_path: &str, pre_dir: &str, job: &J
 		// re-offered as well, as peers would
 		for x in scen["pre"].as_array().unwrap() {
 			if let Some(s) = x.as_str() {
-				if s != "compact" {
+				if let Some(hh) = s.strip_prefix("header:") {
+					let hd = find(&h, hh).block.header.clone();
+					let _ = chain.process_block_header(&hd, OPTS);
+				} else if s != "compact" {
 					let b = find(&h, s).block.clone();
 					let _ = chain.process_block(b, OPTS);
 				}
@@ -592,6 +608,35 @@ fn build_scenarios(seed: u64, long: bool) -> Vec<Scen> {
 			hist: Value::Null,
 		});
 	}
+	// S5b / S5c: the header of a block on T12 was announced first (header chain one ahead of the body chain); then a
+	// SIBLING with exactly the same cumulative difficulty arrives — as a header only, and as a full block (which
+	// becomes the body head while the header chain stays on the first-seen header)
+	{
+		let announced = block_on(&mut h, &t12, &[], 1, 10);
+		let sibling = block_on(&mut h, &t12, &[], 1, 10);
+		let after_h = block_on(&mut h, &t12, &[], 1, 10);
+		let mut pre = pre_to(12);
+		pre.push(format!("header:{}", hstr(&announced)));
+		out.push(Scen {
+			name: "equal_work_sibling_header_with_header_chain_ahead".into(),
+			pre: pre.clone(),
+			op: json!({"kind": "header", "block": hstr(&sibling)}),
+			old_head: t12,
+			new_head: t12,
+			after: Some(after_h),
+			hist: Value::Null,
+		});
+		let after_b = block_on(&mut h, &sibling, &[], 1, 10);
+		out.push(Scen {
+			name: "equal_work_sibling_block_with_header_chain_ahead".into(),
+			pre,
+			op: json!({"kind": "block", "block": hstr(&sibling)}),
+			old_head: t12,
+			new_head: sibling,
+			after: Some(after_b),
+			hist: Value::Null,
+		});
+	}
 	let _ = t11;
 	let hist_short = hist_to_json(&h);
 	for s in out.iter_mut() {
@@ -791,7 +836,7 @@ fn main() {
 	run.sample(json!({"enumeration": per_scenario}));
 	run.spawn_workers(16, &["--work".to_string(), work.clone()], run.tier.pick(1500, 3000));
 	drop(sc);
-	run.require("scenarios_counted", per_scenario.len() as u64, 8 * worlds.len() as u64);
+	run.require("scenarios_counted", per_scenario.len() as u64, 10 * worlds.len() as u64);
 	run.require("crash_points_exercised == enumerated", run.counter("crash_points_exercised"), total_jobs.max(100));
 	for l in [
 		"lmdb.commit.pre", "lmdb.commit.post", "aof.flush.pre_append", "aof.flush.torn_append_head", "aof.flush.torn_append_tail", "aof.flush.post_sync", "aof.flush.pre_truncate",
